@@ -13,6 +13,7 @@ func init() {
 	register(&Property{
 		ID: "C08",
 		Explanation: "Decides in Context.Respond, errorResp.WriteResponse, AddRoute and the basic-auth authenticators: R08.1 every lookup in a producer/consumer table of package middleware is keyed by a parameter-free media type (normalizeOffer(..), the parsed content type, or the API default against a table built for that default) and the route's producer table is built from the normalised final produces list; " +
+			"Round 12: R08.2 the wrapper responds with the route's produces and a declared status is used only when reported. " +
 			"R08.2 the Content-Type header is set from the negotiated format before any status line or body is written and, for a routed operation, the status is the operation's declared success status; R08.3 no producer writes a body for HEAD requests or a 204 status; " +
 			"R08.4 a Responder is handed the producer found for the normalised negotiated format (or the default producer fallback); R08.5 an error result reaches the API's error responder unchanged, with a JSON content type whenever nothing was negotiated (on every route state), and a failed basic-auth attempt sets WWW-Authenticate from the realm marker, which every non-accepting exit of the basic authenticators stores from the CONFIGURED realm; " +
 			"R08.6 errorResp writes its headers, then its status (500 when unset), then lets the given producer write its payload. " +
